@@ -582,64 +582,66 @@ def lift_zero(r):
 
 
 def primary(case, count=None):
+    """execute the case; returns (Run, None) or (Run, (base signature, state parts, msg, step))"""
     r = Run(case, count)
     return r, r.execute()
 
 
-def run_case(case, count=None):
-    """execute the case; returns (Run, None) or (Run, (sig, msg, step)).
+def reproduces(case, base):
+    try:
+        _r, res = primary(case)
+    except Exception:  # noqa: BLE001
+        return False
+    return res is not None and res[0] == base
 
-    The signature's zero= and walker= components are decided by experiment, not by correlation:
-    zero=<focus|view|list> only if the same failure does NOT reproduce once every 0-row item is given one row;
-    walker=<name> only if it does not reproduce with another walker class (else walker=any)."""
+
+def classify(wit, base, st):
+    """full signature of a (shrunk) witness.
+
+    The shrinker removes every feature it can while the base signature (clause, kind of mismatch / exception
+    site) still reproduces: 0-row items are given a row, the walker is turned into SimpleFocusListWalker, the
+    ListBox is given focus.  What is left in the witness is therefore necessary for it, and is named:
+    zero=<focus|view|none>, walker=<any|name>, listbox=unfocused."""
+    zero = {"focus": "focus", "view": "view", "list": "view", "none": "none"}[st["zero"]]
+    walker = wit["walker"]
+    for other in ("sflw", "dictv2", "slw"):
+        if other != wit["walker"] and reproduces(dict(wit, walker=other), base):
+            walker = "any"
+            break
+    sig = base
+    if not wit["lbfocus"] or any(o[0] == "lbfocus" for o in wit["ops"]):
+        if not reproduces(dict(wit, lbfocus=True, ops=[o for o in wit["ops"] if o[0] != "lbfocus"]), base):
+            sig += "|listbox=unfocused"
+    return f"{sig}|zero={zero}|walker={walker}"
+
+
+def run_case(case, count=None):
+    """execute + classify without shrinking; returns (Run, None) or (Run, (sig, msg, step))"""
     r, res = primary(case, count)
     if res is None:
         return r, None
     base, st, msg, step = res
-    zero = st["zero"]
-    if zero != "none":
-        lifted = dict(
-            case,
-            items=[lift_zero(x) for x in case["items"]],
-            ops=[[o[0], o[1], lift_zero(o[2])] if o[0] in ("insert", "replace") else o for o in case["ops"]],
-        )
-        _r2, res2 = primary(lifted)
-        if res2 is not None and res2[0] == base:
-            zero = "none"
-    walker = case["walker"]
-    for other in ("sflw", "dictv2", "slw"):
-        if other != case["walker"]:
-            _r3, res3 = primary(dict(case, walker=other))
-            if res3 is not None and res3[0] == base:
-                walker = "any"
-                break
-    return r, (f"{base}|zero={zero}|walker={walker}", msg, step)
+    return r, (classify(case, base, st), msg, step)
 
 
 # ------------------------------------------------------------------ shrinking
 
 
-def shrink(case, sig, step, max_runs=160):
+def shrink(case, base, step, max_runs=220):
+    """delta-debug the recipe while the same base signature reproduces"""
     best = dict(case, ops=case["ops"][: step + 1])
     runs = [0]
-
-    base = sig.rsplit("|", 2)[0]
 
     def same(c):
         if runs[0] >= max_runs:
             return False
         runs[0] += 1
-        try:
-            _r, res = primary(c)
-            if res is None or res[0] != base:
-                return False
-            _r, res = run_case(c)
-        except Exception:  # noqa: BLE001
-            return False
-        return res is not None and res[0] == sig
+        return reproduces(c, base)
 
     def variants_item(r):
         out = []
+        if r["t"] == "pile0" or (r["t"] in ("spy", "cur") and r["h"] == 0):
+            out.append(lift_zero(r))
         if r["t"] in ("spy", "cur"):
             if r.get("nx"):
                 out.append(dict(r, nx=0))
@@ -676,14 +678,18 @@ def shrink(case, sig, step, max_runs=160):
                 progress = True
             i -= 1
         # canonical walker / flags
-        for patch in ({"walker": "sflw"}, {"walker": "dictv2"}, {"lbfocus": True}, {"focus0": None}, {"size": [10, best["size"][1]]}):
+        patches = [{"walker": "sflw"}, {"walker": "dictv2"}, {"focus0": None}, {"size": [10, best["size"][1]]}]
+        for patch in patches:
             if all(best.get(k) == v for k, v in patch.items()):
-                continue
-            if patch.get("walker") == "sflw" and best["walker"] != "slw":
                 continue
             if patch.get("walker") == "dictv2" and best["walker"] != "dictv1":
                 continue
             c = dict(best, **patch)
+            if same(c):
+                best = c
+                progress = True
+        if not best["lbfocus"] or any(o[0] == "lbfocus" for o in best["ops"]):
+            c = dict(best, lbfocus=True, ops=[o for o in best["ops"] if o[0] != "lbfocus"])
             if same(c):
                 best = c
                 progress = True
@@ -708,27 +714,39 @@ def shrink(case, sig, step, max_runs=160):
 
 # ------------------------------------------------------------------ driver
 
-
 _SEEN: dict = {}
+_SHRINK_TIME = [0.0]
 
 
 def standalone(case):
     return "cd /verif && /venv/bin/python -B -c \"import sys,json; sys.path[:0]=['/repo','/verif']; from vmon.checks import c07; print(c07.run_case(json.loads(sys.argv[1]))[1])\" '" + json.dumps(case) + "'"
 
 
-def report(ctx, case, res, do_shrink=True):
-    sig, msg, step = res
-    seen = _SEEN
-    seen[sig] = seen.get(sig, 0) + 1
-    wit = dict(case, ops=case["ops"][: step + 1])
-    old = ctx.violations.get(sig.replace(" ", "_"))
-    if do_shrink and (seen[sig] <= 1 or (seen[sig] <= 4 and old is not None and old["size"] > 420)):
-        ctx.count("shrunk")
-        wit = shrink(case, sig, step)
-        _r, res2 = run_case(wit)
-        if res2 is not None and res2[0] == sig:
-            msg = res2[1]
-    ctx.violation(sig, msg, wit)
+def short(base):
+    return base[4:].replace("|", "/")[:110]
+
+
+def report(ctx, case, res):
+    """shrink, classify, report.  Only the first K failures per base signature and shard are shrunk and
+    classified (bounded cost on a tree with frequent known failures); all are counted."""
+    import time
+
+    base, st, msg, step = res
+    _SEEN[base] = _SEEN.get(base, 0) + 1
+    ctx.count("failure:" + short(base))
+    k = ctx.pick(3, 8)
+    if _SEEN[base] > k or _SHRINK_TIME[0] > 0.45 * ctx.budget:
+        ctx.count("failures_counted_not_classified")
+        return
+    t0 = time.monotonic()
+    wit = shrink(case, base, step)
+    _r, res2 = primary(wit)
+    if res2 is None or res2[0] != base:  # cannot happen (shrink only accepts reproducing candidates)
+        wit, res2 = dict(case, ops=case["ops"][: step + 1]), res
+    sig = classify(wit, base, res2[1])
+    _SHRINK_TIME[0] += time.monotonic() - t0
+    ctx.count("failures_shrunk_and_classified")
+    ctx.violation(sig, res2[2] + "\nstandalone: " + standalone(wit), wit)
 
 
 def run(ctx):
@@ -759,7 +777,7 @@ def run(ctx):
     while ctx.more(1.0):
         n += 1
         case = gen_case(rng, max_ops)
-        r, res = run_case(case, ctx.count)
+        r, res = primary(case, ctx.count)
         ctx.count("histories")
         ctx.count("walker:" + case["walker"])
         ctx.count("ops_applied", r.step + 1)
@@ -775,8 +793,9 @@ def run(ctx):
 
 
 def replay(ctx, wit):
-    r, res = run_case(wit, ctx.count)
+    r, res = primary(wit, ctx.count)
     ctx.case(json.dumps(wit, sort_keys=True))
     if res is not None:
-        report(ctx, wit, res, do_shrink=False)
+        base, st, msg, step = res
+        ctx.violation(classify(wit, base, st), msg, wit)
     return res
